@@ -102,6 +102,10 @@ def coq_ev(c):
         return "EUdpBind %d %d %d %d" % (c[1], c[2], c[3], c[4])
     if n == "udp_send":
         return "EUdpSend %d %d %d %d" % (c[1], c[2], c[3], c[4])
+    if n == "udp_connect":
+        return "EUdpConnect %d %d %d" % (c[1], c[2], c[3])
+    if n == "udp_send_c":
+        return "EUdpSendC %d %d" % (c[1], c[2])
     raise ValueError("unknown command %r" % (c,))
 
 
@@ -148,11 +152,11 @@ def enc_obs(cmd, o):
         return [[0] + _addr(o["a"]["local"]) + _addr(o["a"]["peer"])] if r == "ok" else _err(r)
     if n == "accept":
         return [[0] + o["from"] + _addr(o["a"]["local"]) + _addr(o["a"]["peer"])] if r == "ok" else _err(r)
-    if n in ("write", "udp_send"):
+    if n in ("write", "udp_send", "udp_send_c"):
         return [[0, o["n"]]] if r == "ok" else _err(r)
     if n in ("read", "peek"):
         return [[0], list(o["b"])] if r == "ok" else _err(r)
-    if n in ("shutdown", "close", "cancel"):
+    if n in ("shutdown", "close", "cancel", "udp_connect"):
         return [[0]] if r == "ok" else _err(r)
     if n == "addrs":
         a = o["a"]
@@ -464,9 +468,89 @@ def gen_caps(rng):
         n = max(0, lim + rng.choice([-1, 0, 0, 1, 1, 2, -lim // 2]))
         if n <= 4000:
             sc.add(["udp_send", u, n, dst, 6000], E, D(0))
+    # connected UDP: connect, then send / try_send around the limit of the peer's path (and a re-connect)
+    if rng.random() < 0.7:
+        if rng.random() < 0.15:
+            sc.add(["udp_send_c", u, 3])               # not connected yet
+        for _ in range(rng.randrange(1, 3)):
+            dst = rng.choice([2, 3, 1])
+            lim = mss_of(cfg, dst, 8)
+            sc.add(["udp_connect", u, dst, 6000])
+            for _ in range(rng.randrange(1, 4)):
+                n = max(0, lim + rng.choice([-1, 0, 0, 1, 1, 2, 7, -lim // 2]))
+                if n <= 4000:
+                    sc.add(["udp_send_c", u, n], E, D(0))
+            if rng.random() < 0.3:
+                d2 = rng.choice([2, 3, 1])
+                n = max(0, mss_of(cfg, d2, 8) + rng.choice([0, 1]))
+                if n <= 4000:
+                    sc.add(["udp_send", u, n, d2, 6001], E, D(0))     # send_to on a connected socket
     sc.clean(3, 4)
     sc.add(["netstat", 0], ["netstat", 1])
     return {"cfg": cfg, "script": sc.s, "flavour": "caps"}
+
+
+def gen_mixed_mss(rng):
+    """One host with a LOOPBACK connection and a CROSS-HOST connection that both have unsent data in the same
+    egress sweep, in both socket-table orders, loopback_mtu != mtu: every segment must be cut with the MSS of the
+    interface it leaves from (C16)."""
+    cfg = rand_cfg(rng)
+    hdr = (40 if cfg["v6"] else 20) + 20
+    mss_x = rng.choice([1, 3, 8, 20, 100, 100, 300])
+    cfg["mtu"] = hdr + mss_x
+    cfg["loopback_mtu"] = rng.choice([65536, 65536, 65536, hdr + rng.choice([2, 5, 50, 300])])
+    cfg["send_cap"] = rng.choice([64, 512, 4096, 65536])
+    cfg["recv_cap"] = rng.choice([64, 4096, 65536])
+    cfg["backlog"] = 4
+    cfg["retx_threshold"], cfg["retx_max"] = 3, 5
+    sc = Script()
+    h = rng.choice([0, 0, 1])                       # the host that has both kinds of connection
+    o = 1 - h
+    ext_active = rng.random() < 0.6                 # h is the client of the cross-host connection (else it accepts)
+
+    def mk_loop():
+        ls, cs, as_ = sc.slot(), sc.slot(), sc.slot()
+        sc.add(["listen", ls, h, rng.choice([1, 0]), 81], ["connect", cs, h, 1, 81])
+        sc.add(E, ["poll_connect", cs], ["accept", ls, as_])
+        return cs, as_
+
+    def mk_ext():
+        ls, cs, as_ = sc.slot(), sc.slot(), sc.slot()
+        (ch, lh) = (h, o) if ext_active else (o, h)
+        sc.add(["listen", ls, lh, rng.choice([lh + 2, 0]), 80], ["connect", cs, ch, lh + 2, 80])
+        sc.clean(3, 2)
+        sc.add(["poll_connect", cs], ["accept", ls, as_])
+        return (cs, as_) if ext_active else (as_, cs)   # (end on h, end on the other host)
+
+    if rng.random() < 0.6:
+        lc, la = mk_loop()
+        xh, xo = mk_ext()
+    else:
+        xh, xo = mk_ext()
+        lc, la = mk_loop()
+    lw, lr = (lc, la) if rng.random() < 0.5 else (la, lc)
+    pos = 0
+    for _ in range(rng.randrange(1, 4)):
+        big = min(cfg["send_cap"], rng.choice([mss_x + 1, 2 * mss_x + 1, 40, 200, 400]))
+        order = [(lw, 40), (xh, 90)]
+        if rng.random() < 0.3:
+            order.reverse()
+        for (sl, base) in order:                    # both get unsent data before the same sweep
+            sc.add(["write", sl, pattern(base, pos, big)])
+        pos += big
+        if rng.random() < 0.3:
+            sc.add(["write", xo, pattern(7, pos, rng.choice([1, mss_x + 2]))])
+        sc.add(E)
+        for _ in range(rng.randrange(2, 8)):
+            sc.add(D(0))
+        sc.add(["read", lr, rng.choice([64, 4096, 70000])], ["read", xo, rng.choice([64, 4096, 70000])],
+               ["read", xh, 4096])
+        if rng.random() < 0.5:
+            sc.add(["netstat", h])
+    for _ in range(3):
+        sc.add(E, ["flush"], ["read", lr, 70000], ["read", xo, 70000])
+    sc.add(["netstat", 0], ["netstat", 1])
+    return {"cfg": cfg, "script": sc.s, "flavour": "mixed"}
 
 
 def gen_live(rng):
